@@ -157,9 +157,9 @@ Definition pres_eqb (x y : pres) : bool :=
 Inductive case :=
   (* one string through every unary entry point:
      ParseVerbatim(s,arch); Parse(s,arch); for the parsed channel c: c.Full() (None = panicked), c.Clean(),
-     Parse(c.String(),arch); top-level Full(s) *)
+     Parse(c.String(),arch); top-level Full(s); and Full applied to the result of Full(s) (None if either call failed) *)
   | CParse (sys s arch : bytes) (o_verbatim o_parse : option chan) (o_full : option bytes)
-           (o_clean : option chan) (o_reparse : option chan) (o_fullstr : option bytes)
+           (o_clean : option chan) (o_reparse : option chan) (o_fullstr o_fullstr2 : option bytes)
   (* Clean on an arbitrary Channel value: c.Clean(), c.Clean().Clean() *)
   | CClean (c : chan) (o_clean o_clean2 : chan)
   (* Resolve(cur,new) and, as seen by the real parser with architecture `-`: ParseVerbatim(cur), ParseVerbatim(new),
@@ -170,7 +170,8 @@ Inductive case :=
 
 Definition mismatch (c : case) : bool :=
   match c with
-  | CParse sys s a ov op of_ oc orp ofs =>
+  | CParse sys s a ov op of_ oc orp ofs ofs2 =>
+      negb (opt_eqb beq ofs2 (match full_of_string s with Some r => full_of_string r | None => None end)) ||
       negb (opt_eqb chan_eqb (parse_verbatim sys s a) ov) ||
       negb (opt_eqb chan_eqb (parse sys s a) op) ||
       negb (opt_eqb beq ofs (full_of_string s)) ||
@@ -196,9 +197,30 @@ Definition mismatch (c : case) : bool :=
    table and byte-string helpers are used, none of the model functions above. *)
 Definition norm_track (t : bytes) : bytes := if beq t default_track then [] else t.
 
+(* The string-level Full on its observed result r for input s: normalising twice equals once; a non-empty result is
+   track/risk or track/risk/branch without an empty component; and where Full itself fills in or places the risk (the
+   input has a single component, or two components starting with a risk name) the risk position holds a name from the
+   table. Full does not validate a risk the input supplies after a track (Full of foo/bar is foo/bar, Full of a/b/c is
+   a/b/c), so nothing is demanded there. *)
+Definition full_string_bad (s : bytes) (ofs ofs2 : option bytes) : bool :=
+  match ofs with
+  | None => false
+  | Some r =>
+      negb (opt_eqb beq ofs2 (Some r)) ||
+      (if is_nil_b r then false
+       else
+         let cs := split_slash r in
+         let ics := filter (fun x => negb (is_nil_b x)) (split_slash s) in
+         negb (Nat.leb 2 (length cs) && Nat.leb (length cs) 3) ||
+         existsb is_nil_b cs ||
+         ((Nat.eqb (length ics) 1 || (Nat.eqb (length ics) 2 && existsb (beq (hd [] ics)) risks)) &&
+          negb (existsb (beq (nth 1 cs [])) risks)))
+  end.
+
 Definition monitor_fail (c : case) : bool :=
   match c with
-  | CParse sys s a ov op of_ oc orp ofs =>
+  | CParse sys s a ov op of_ oc orp ofs ofs2 =>
+      full_string_bad s ofs ofs2 ||
       match op with
       | None => false
       | Some ch =>
